@@ -1,4 +1,4 @@
-from math import atan, cos, pi, sin, sqrt
+from math import cos, sin, sqrt
 
 import numpy as np
 
@@ -455,15 +455,10 @@ def gen_borehole_config(
     lowest_vert = None
     highest_vert = None
     for vert in field.c:
-        phi = atan(vert[1] / vert[0]) if vert[0] != 0 else PI_OVER_2
-        dist_vert = sqrt(vert[1] ** 2 + vert[0] ** 2)
-        ref_angle = phi
-        if phi > PI_OVER_2:
-            if phi > pi:
-                ref_angle = 2 * rotate + 3 * PI_OVER_2 - phi if phi > 3 * PI_OVER_2 else 2 * rotate + pi - phi
-            else:
-                ref_angle = pi - phi + 2 * rotate
-        yp = dist_vert * sin(ref_angle - rotate)
+        # height of the vertex above the rotated x-axis.  (This used to go through polar coordinates,
+        # dist * sin(atan(y / x) - rotate), which is the same projection but loses the last bit: a lot exactly k row
+        # spacings high then came out as k - 1e-15 spacings and lost a row, or divided by zero for k = 1.)
+        yp = vert[1] * cos(rotate) - vert[0] * sin(rotate)
         if yp < lowest_vert_val:
             lowest_vert_val = yp
             lowest_vert = vert
